@@ -648,6 +648,7 @@ func cmdCheck(args []string) int {
 	os.MkdirAll(filepath.Join(outRoot(), "replay", prop), 0o755)
 	violations := 0
 	replayBudget := 6
+	replayStart := time.Now()
 	discharged := 0
 	claimed := 0
 	covers := 0
@@ -689,12 +690,14 @@ func cmdCheck(args []string) int {
 		path := filepath.Join(outRoot(), "replay", prop, sanitize(strings.TrimPrefix(r.Ob.Name, prop+"/"))+".json")
 		replayBudget--
 		var rep *Replay
-		if replayBudget >= 0 {
+		// replays are sequential and each may need several solver runs plus a `go test`: besides the count, the time
+		// spent on them is bounded (quick tier: 4 minutes in total), so a check of a tree with many failing obligations ends
+		if replayBudget >= 0 && (*tier == "thorough" || time.Since(replayStart) < 4*time.Minute) {
 			rep = buildReplay(prog, cs, prop, r, timeout)
 		} else {
 			rep = &Replay{Property: prop, Obligation: r.Ob.Name, Kind: r.Ob.Kind, Clause: r.Ob.Text, At: r.Ob.Pos, Unit: r.Ob.Unit,
 				Status: r.Res.Status, Solver: r.Res.Solver, Output: clip(r.Res.Raw, 4000), PerSolver: r.Res.All,
-				Note: "obligation generated from /repo's current source was not discharged", ReplayLog: "no replay attempted: more than 6 obligations of this check failed, only the first 6 are replayed"}
+				Note: "obligation generated from /repo's current source was not discharged", ReplayLog: "no replay attempted: the replay budget of this check (6 obligations, 4 minutes in the quick tier) is used up"}
 		}
 		data, _ := json.MarshalIndent(rep, "", " ")
 		os.WriteFile(path, data, 0o644)
